@@ -62,7 +62,7 @@ BE(n, m) == /\ m \in run[n] /\ run' = [run EXCEPT ![n] = @ \ {m}] /\ done' = [do
             /\ UNCHANGED <<rsv, consumed, recv>>
             /\ UNCHANGED <<kind, conc, preds, ext, pend, putseq, begun, putdone, before, nextseq, decs, thr, seqno, key, tuples, cancelled>>
 \* a decrement message is about to be sent to limiter n
-DecB(n) == decs' = [decs EXCEPT ![n] = @ + 1] /\ UNCHANGED <<kind, conc, preds, ext, pend, putseq, begun, done, run, putdone, before, nextseq, thr, seqno, key, tuples, cancelled, snap, rsv, consumed, recv>>
+DecB(n, k) == decs' = [decs EXCEPT ![n] = @ + k] /\ UNCHANGED <<kind, conc, preds, ext, pend, putseq, begun, done, run, putdone, before, nextseq, thr, seqno, key, tuples, cancelled, snap, rsv, consumed, recv>>
 \* join node n (ports fed by single producers p0 / p1 through external puts into the port pseudo-nodes a / b) emitted the tuple (x, y)
 \* (a tuple can be observed before the try_put that delivered its last component has returned: the order of a port is the order in which its single
 \* producer INVOKED the puts, putseq; rejected puts do not occur on these ports)
